@@ -12,22 +12,29 @@ allnib = z3.Function("allnib", SeqI, BoolS)
 
 
 def allnib_of(t, side=None, b2n=None):
+    f = _allnib_of_raw(t, side, b2n)
+    if side is not None:
+        side.append(allnib(z3.simplify(t)) == f)
+    return f
+
+
+def _allnib_of_raw(t, side=None, b2n=None):
     """formula for allnib(t) with constructors unfolded; implications for slices are appended to `side`"""
     t = z3.simplify(t)
     if z3.is_app(t):
         k = t.decl().kind()
         if k == z3.Z3_OP_SEQ_CONCAT:
-            return z3.And(*[allnib_of(a, side, b2n) for a in t.children()])
+            return z3.And(*[_allnib_of_raw(a, side, b2n) for a in t.children()])
         if k == z3.Z3_OP_SEQ_UNIT:
             c = t.arg(0)
             return z3.And(c >= 0, c <= 15)
         if k == z3.Z3_OP_SEQ_EMPTY:
             return z3.BoolVal(True)
         if k == z3.Z3_OP_ITE:
-            return z3.If(t.arg(0), allnib_of(t.arg(1), side, b2n), allnib_of(t.arg(2), side, b2n))
+            return z3.If(t.arg(0), _allnib_of_raw(t.arg(1), side, b2n), _allnib_of_raw(t.arg(2), side, b2n))
         if k == z3.Z3_OP_SEQ_EXTRACT:
             if side is not None:
-                side.append(z3.Implies(allnib_of(t.arg(0), side, b2n), allnib(t)))
+                side.append(z3.Implies(_allnib_of_raw(t.arg(0), side, b2n), allnib(t)))
                 side.append(z3.Implies(z3.Length(t) == 0, allnib(t)))
             return allnib(t)
         if b2n is not None and t.decl().eq(b2n):
